@@ -425,7 +425,16 @@ where
         &self,
         value: impl Borrow<Self::Input>,
     ) -> (usize, Self::Output) {
-        let value = *value.borrow();
+        let mut value = *value.borrow();
+        let mut strict = STRICT;
+        if value > self.u {
+            // All elements are smaller than or equal to the upper bound, so
+            // the predecessor of a larger value is the non-strict
+            // predecessor of the upper bound; moreover, there are no zeros
+            // to select in the high bits beyond those of the upper bound.
+            value = self.u;
+            strict = false;
+        }
         let zeros_to_skip = value >> self.l;
         let mut bit_pos = self.high_bits.select_zero_unchecked(zeros_to_skip) - 1;
 
@@ -459,7 +468,7 @@ where
                 );
             }
 
-            if STRICT {
+            if strict {
                 if lower_bits < value & ((1 << self.l) - 1) {
                     return (rank, ((bit_pos - rank) << self.l) | lower_bits);
                 }
